@@ -942,3 +942,10 @@ LEVEL_NOTE = ('Trusted: Lean kernel; axioms within {propext, Classical.choice, Q
               'arithmetic is modelled on ints/dyadics. "The update object is not modified" is checked on '
               'the implementation only (deep comparison before/after).')
 TECHNIQUE = 'Lean 4 proof (induction over update/store) + model/code correspondence (differential) + spec oracle'
+
+
+# the update object handed in is not modified — also when several ports of the process reach one node and the
+# process returns the same object from every call (F35)
+from harness import reuseupd as _ru                     # noqa: E402
+from harness.mixins import add_family as _add_family    # noqa: E402
+_add_family(globals(), _ru, 'reuseupd', _ru.oracle, share=0.02)
